@@ -1,2 +1,3 @@
 pub mod brokersim;
 pub mod codec;
+pub mod world;
